@@ -775,21 +775,53 @@ func kind(ans string) string {
 
 func runCase(r *hx.Run, sub uint64, ops []string) {
 	r.Case(sub)
-	w := newWorld()
-	o := newOracle()
+	ws := [2]*world{newWorld(), newWorld()}
+	os := [2]*oracle{newOracle(), newOracle()}
 	bigIter, mutations, closedAnswers := 0, 0, 0
 	realms := map[string]struct{}{}
 	for _, op := range ops {
 		f := strings.Fields(op)
+		tree := 0
+		if f[0] == "2" {
+			tree, f = 1, f[1:]
+		}
+		w, o := ws[tree], os[tree]
 		var ans string
-		if p := hx.Safely(func() { ans = w.exec(f) }); p != "" {
-			ans = "panic"
+		want := "bad-op"
+		if f[0] == "copy" || f[0] == "copyb" {
+			if p := hx.Safely(func() { ans = execCopy(ws, f) }); p != "" {
+				ans = "panic"
+			}
+			size := 0
+			want, size = expectCopy(os, f)
+			if want == "ok" && f[0] == "copyb" {
+				switch n := atoi(f[5]); {
+				case n == 0:
+					r.Count("copyb:batch-size:none")
+				case n < size-1:
+					r.Count("copyb:batch-size:<size-1")
+				case n == size-1:
+					r.Count("copyb:batch-size:=size-1")
+				case n == size:
+					r.Count("copyb:batch-size:=size")
+				case n == size+1:
+					r.Count("copyb:batch-size:=size+1")
+				default:
+					r.Count("copyb:batch-size:>size+1")
+				}
+			}
+			if want == "ok" {
+				r.Count(fmt.Sprintf("copy:trees:%s->%s", f[1], f[3]))
+			}
+		} else {
+			if p := hx.Safely(func() { ans = w.exec(f) }); p != "" {
+				ans = "panic"
+			}
+			if p := hx.Safely(func() { want = o.expect(f) }); p != "" {
+				want = "bad-op"
+			}
 		}
 		r.Line(op, ans)
-		want := "bad-op"
-		if p := hx.Safely(func() { want = o.expect(f) }); p != "" {
-			want = "bad-op"
-		}
 		for _, d := range w.retainedFails {
 			r.Fail("retained-keys-differ", d+"; history: "+fmt.Sprint(r.CaseLines()),
 				map[string]string{"op": f[0], "oracle": "retained-keys-differ"})
@@ -809,7 +841,7 @@ func runCase(r *hx.Run, sub uint64, ops []string) {
 			if nf >= 3 {
 				bigIter++
 			}
-		case "set", "del", "delp", "clear", "commit", "commitf":
+		case "set", "del", "delp", "clear", "commit", "commitf", "copy", "copyb":
 			if ans == "ok" {
 				mutations++
 			}
@@ -822,6 +854,10 @@ func runCase(r *hx.Run, sub uint64, ops []string) {
 		if ans == "closed" {
 			closedAnswers++
 		}
+	}
+	w := &world{cbCalls: ws[0].cbCalls + ws[1].cbCalls, counts: ws[0].counts}
+	for k, n := range ws[1].counts {
+		w.counts[k] += n
 	}
 	if closedAnswers > 0 {
 		r.Count("case:saw-closed")
@@ -854,6 +890,11 @@ var corpus = [][]string{
 	{"view 1 0 01 abs", "batch 8 1", "bset 8 00 aa", "commit 8", "batch 9 0", "bset 9 0101 bb", "cancel 8", "commit 9", "get 0 0101",
 		"batch 7 1", "bset 7 02 cc", "bset 8 03 dd", "commit 7", "iter 0 - fwd 0", "commit 8", "iter 0 - fwd 0", "cancel 7", "commit 7",
 		"iter 0 - fwd 0"},
+	// Copy / CopyBatched between trees and within one tree, batch boundaries, closed source / target
+	{"view 1 0 01 abs", "set 1 aa 01", "set 1 bb 02", "set 1 cc 03", "set 0 05 09", "2 wrap 1 0 f", "2 view 2 1 07 abs", "2 set 2 aa ff",
+		"copy 1 1 2 2", "2 iter 0 - fwd 0", "copyb 1 1 2 0 1", "copyb 1 1 2 1 2", "copyb 1 1 2 2 3", "copyb 1 1 2 0 4", "copyb 1 0 2 0 0",
+		"2 iter 0 - bwd 0", "copy 1 1 1 0", "copyb 1 0 1 1 2", "iter 0 - fwd 0", "copy 2 9 1 0", "2 close 0", "copy 1 1 2 2", "copyb 1 1 2 2 2",
+		"copy 2 0 1 0", "copyb 2 2 1 1 1", "iter 0 - fwd 0", "close 0", "copy 1 0 2 0", "copyb 1 0 1 1 0"},
 	// close: every call on every view fails afterwards
 	{"wrap 1 0 f", "wrap 2 1 d", "view 3 2 01 ext", "set 3 00 01", "batch 8 3", "bset 8 01 02", "close 3", "get 0 0100", "has 1 00",
 		"set 2 00 00", "del 3 00", "delp 0 -", "clear 1", "iter 2 - fwd 0", "iterk 3 - bwd 0", "view 4 0 00 abs", "view 5 3 00 ext",
@@ -894,7 +935,8 @@ func probeAliasing(r *hx.Run) {
 func main() {
 	r := hx.Start()
 	probeAliasing(r)
-	r.Rule = "random histories (40 ops) over view trees of depth <= 3 and wrapper stacks of depth <= 3, keys/prefixes/realms over " +
+	r.Rule = "pure-helper stream (KeyPrefixUpperBound over all prefixes of length <= 4 over {00,01,7f,fe,ff}, ConcatBytes, CopyBytes, " +
+		"GetIterDirection) + random histories (40 ops; every second one over TWO store trees with Copy/CopyBatched between and within them) over view trees of depth <= 3 and wrapper stacks of depth <= 3, keys/prefixes/realms over " +
 		"{00,01,7f,ff} of length 0..3, values of length 0..4, both directions + default; non-trivial = at least two distinct " +
 		"realms created, one iteration reporting >= 2 entries and three successful mutations; distinct by sha256 of the op lines"
 	if lines := r.ReplayLines(); lines != nil {
@@ -903,6 +945,7 @@ func main() {
 
 		return
 	}
+	runPure(r)
 	for _, c := range corpus {
 		runCase(r, 0, c)
 	}
@@ -912,7 +955,11 @@ func main() {
 	}
 	for i := 0; i < n; i++ {
 		rng, sub := r.Rng.Fork()
-		runCase(r, sub, genCase(rng, 40))
+		if i%2 == 1 {
+			runCase(r, sub, genPairCase(rng)) // two store trees with Copy / CopyBatched between them
+		} else {
+			runCase(r, sub, genCase(rng, 40))
+		}
 	}
 	r.Finish()
 }
